@@ -3,7 +3,7 @@ from propdefs.common import *
 PROP = {
     "bin": "c01",
     "coq_targets": ["theories/Isa/C01Check", "theories/Isa/X86Proofs"],
-    "n": {"quick": 2400, "thorough": 40000},
+    "n": {"quick": 2000, "thorough": 40000},
     "theorems": ["reg_get_set_correct", "reg_set_prefix_refuted", "of_add_correct", "of_sub_correct", "cf_sub_correct",
                  "cf_add_correct", "sf_correct", "set_zf_den", "set_sf_den", "set_cf_den", "set_of_den", "lift_mov_reg_reg_correct", "add_reg_ops_correct", "sub_reg_ops_correct", "cmp_reg_ops_correct", "logic_reg_ops_correct", "incdec_reg_ops_correct", "il_run_one_block"],
     "rule": "instruction encodings enumerated from the opcode tables of harness/src/bin/c01.rs (mnemonic x operand size 8/16/32/64(/128) x "
